@@ -49,6 +49,9 @@ def cases(ctx):
             {"op": "flush"},
             {"op": "add", "target": {"kind": "entry", "array": "a1", "idx": 0}, "other": 1, "mod": None}], "script": []}
         yield {"kind": "kf-reg-across-flush"}
+        for outer in ("loop", "foreach"):
+            for reg in ("R0", "R1", "R7"):
+                yield {"kind": "named-loop-register", "outer": outer, "reg": reg}
         yield {"kind": "kf-remeasure"}
         yield {"kind": "kf-mreg-recycled"}
         # a loop whose bound is a value the host read after an earlier flush (the resolved Future itself is passed as `stop`)
@@ -158,7 +161,44 @@ def all_scripts(prog, cap=64):
     return out
 
 
+def _named_loop_register(ctx, case):
+    """conn.loop_body(body, 2, loop_register=<name>) inside an enclosing loop / foreach over 3 entries: either the call is refused
+    (the name is the register the enclosing construct counts in) or the inner body runs 3 x 2 times."""
+    from vf.harness.pipeline import Pipe
+    pipe = Pipe(script=[], max_qubits=2)
+    ctx.count("named_loop_register_cases")
+    try:
+        with pipe.conn as conn:
+            acc = conn.new_array(1, init_values=[0])
+            vals = conn.new_array(3, init_values=[1, 1, 1])
+
+            def inner(_conn, _i):
+                acc.get_future_index(0).add(1)
+            refused = False
+            try:
+                if case["outer"] == "loop":
+                    with conn.loop(3):
+                        conn.loop_body(inner, 2, loop_register=case["reg"])
+                else:
+                    with vals.foreach():
+                        conn.loop_body(inner, 2, loop_register=case["reg"])
+            except ValueError:
+                refused = True
+                ctx.count("named_loop_register_refused")
+            conn.flush()
+            got = pipe.ex.arrays_snapshot(pipe.app_id).get(acc.address)
+    except (hc.ControllerFault, hc.StepLimit, hc.Deadlock) as e:
+        ctx.fail(case, f"loop_body(.., 2, loop_register={case['reg']!r}) inside a {case['outer']} over 3: the emitted subroutine failed: {str(e)[:160]}")
+        return ctx.case(case, True)
+    if not refused and got != [6]:
+        ctx.fail(case, f"loop_body(.., 2, loop_register={case['reg']!r}) inside a {case['outer']} over 3 was accepted and the inner body ran "
+                       f"{got} time(s) instead of 6 (it counts in a register the enclosing construct uses)")
+    ctx.case(case, True)
+
+
 def run_case(ctx, case):
+    if case["kind"] == "named-loop-register":
+        return _named_loop_register(ctx, case)
     if case["kind"] == "kf-mreg-recycled":
         return _kf_mreg_recycled(ctx, case)
     if case["kind"] == "kf-remeasure":
